@@ -26,7 +26,7 @@ StatusTable == {0, 1, 2, 3, 4, 5, 6, 32, 33, 129, 130, 131, 132, 133, 134}
 
 VARIABLES l, sm, viol, cov
 vars == <<l, sm, viol, cov>>
-NoStream == [id |-> 0, limit |-> 0, frames |-> <<>>, first |-> <<>>, dead |-> FALSE, cut |-> 0, expect |-> <<>>]
+NoStream == [id |-> 0, limit |-> 0, frames |-> <<>>, first |-> <<>>, dead |-> FALSE, cut |-> 0, expect |-> <<>>, strict |-> FALSE]
 Init == l = 1 /\ sm = NoStream /\ viol = <<>> /\ cov = <<>>
 
 Count(c, rule) == IF \E i \in 1..Len(c) : c[i][1] = rule
@@ -34,6 +34,9 @@ Count(c, rule) == IF \E i \in 1..Len(c) : c[i][1] = rule
                   ELSE Append(c, <<rule, 1>>)
 
 ProbeVal(f) == "76" \o TextHex(f.opq)
+\* (a probe store: set of a two-byte key "p<d>" with the 8 extras and the value "v<opaque>")
+IsProbe(f, limit) == /\ f.op = 1 /\ Class(f, limit) = "canonical" /\ "key" \in DOMAIN f /\ Len(f.key) = 4 /\ SubSeq(f.key, 1, 2) = "70"
+                     /\ f.kl = 2 /\ f.el = 8 /\ f.bl = 10 + (Len(ProbeVal(f)) \div 2) /\ f.sent = f.bl
 (* slow-reader universes log long values as a digest plus their length *)
 VLen(r) == IF "vl" \in DOMAIN r THEN r.vl ELSE Len(r.v) \div 2
 RespOK(r) ==
@@ -51,6 +54,9 @@ StartOf(fr, i) == IF i = 1 THEN 0 ELSE StartOf(fr, i - 1) + HeaderLen + fr[i - 1
 
 (* walk frame fi against response ri; `how` says how the reading ended; the client sent only *)
 (* the first `cut` bytes (the whole stream plus a sentinel noop when cut = total length)      *)
+LastProbe(i, lim) == IsProbe(sm.frames[i], sm.limit) /\ ~(\E j \in (i + 1)..lim : (IsProbe(sm.frames[j], sm.limit) /\ sm.frames[j].key = sm.frames[i].key))
+InStore(i, e) == \E x \in 1..Len(e.store) : (e.store[x].k = sm.frames[i].key /\ e.store[x].v = ProbeVal(sm.frames[i]))
+StoreUndone(lim, e) == \E i \in 1..lim : (LastProbe(i, lim) /\ ~InStore(i, e))
 (* what goes wrong after an oversized frame also breaks C13 ("the following pipelined requests are served normally") *)
 OverBefore(fr, fi) == IF \E j \in 1..(fi - 1) : j <= Len(fr) /\ Class(fr[j], sm.limit) = "oversize" THEN {"C13"} ELSE {}
 RECURSIVE Walk(_, _, _, _, _, _)
@@ -96,8 +102,8 @@ Walk(fr, rs, fi, ri, how, cut) ==
     ELSE \* odd or invalid
         IF closedHere THEN ResAt("closed." \o cls, fi - 1)
         ELSE IF have /\ rs[ri].st # 0 THEN Walk(fr, rs, fi + 1, ri + 1, how, cut)
-        ELSE IF cls = "invalid" THEN Res({"C10", "C09"}, "invalid.not.refused")
-        ELSE Res({"C09"}, "odd.not.refused")
+        ELSE IF cls = "invalid" THEN Res({"C10", "C09", "C18"}, "invalid.not.refused")
+        ELSE Res({"C09", "C18"}, "odd.not.refused")
 
 Judge(e) ==
     IF "panics" \in DOMAIN e /\ e.panics > 0 THEN Res({"C10"}, "server.task.panicked")
@@ -110,6 +116,11 @@ Judge(e) ==
          \* stores write the value "v<opaque>", so a store entry names the frame that wrote it
          IF w.tags = {} /\ \E i \in (w.lim + 1)..Len(sm.frames) : \E j \in 1..Len(e.store) : e.store[j].v = ProbeVal(sm.frames[i])
          THEN Res(IF w.rule \in {"quit", "quitq"} THEN {"C12"} ELSE {"C18", "C09", "C10"}, "executed.after." \o w.rule)
+         \* (streams whose only mutations are probe stores and one corrupted request:) what was completely sent before the
+         \* point at which the connection ended is executed - the last probe store of a key among those frames is in the
+         \* store, so the invalid request behind it (a delete / overwrite / append of that item) was not executed
+         ELSE IF w.tags = {} /\ sm.strict /\ StoreUndone(IF w.lim > Len(sm.frames) THEN Len(sm.frames) ELSE w.lim, e)
+         THEN Res({"C18", "C09", "C10"}, "completed.store.undone")
          \* and the body of an oversized request is never executed (its filler is made of set frames for key "inj")
          ELSE IF w.tags = {} /\ \E j \in 1..Len(e.store) : e.store[j].k = "696e6a" THEN Res({"C13", "C10"}, "oversized.body.executed")
          ELSE w
@@ -130,6 +141,7 @@ Step ==
        IF e.e = "stream" THEN
             /\ sm' = [id |-> e.id, limit |-> e.limit, frames |-> e.frames, first |-> <<>>, dead |-> FALSE,
                       cut |-> IF "expect" \in DOMAIN e THEN e.expect.cut ELSE e.len,
+                      strict |-> ("strict" \in DOMAIN e /\ e.strict),
                       expect |-> IF "expect" \in DOMAIN e THEN <<e.expect>> ELSE <<>>]
             /\ UNCHANGED <<viol, cov>>
        ELSE IF sm.dead THEN UNCHANGED <<sm, viol, cov>>
